@@ -17,16 +17,18 @@
 
 // C12: validate() with the flag loops dropped and the two per-sample calls replaced by oracles: what remains is the chunked
 // pairing pipeline, the accuracy rule and the aggregation, verbatim.
-//@slice fn=verif_validate_slice impl=Network src=validate sig="<P: Fn(&tensor::Tensor) -> tensor::Tensor, L: Fn(&tensor::Tensor, &tensor::Tensor) -> (f32, tensor::Tensor)>(&self, inputs: &[&tensor::Tensor], targets: &[&tensor::Tensor], tol: f32, oracle_predict: P, oracle_loss: L) -> (f32, f32)" protect=results,loss,acc
+//@slice fn=verif_validate_slice impl=Network src=validate sig="<P: Fn(&tensor::Tensor) -> tensor::Tensor, L: Fn(&tensor::Tensor, &tensor::Tensor) -> (f32, tensor::Tensor)>(&self, inputs: &[&tensor::Tensor], targets: &[&tensor::Tensor], tol: f32, chunk: usize, oracle_predict: P, oracle_loss: L) -> (f32, f32)" protect=results,loss,acc
 //@drop /let mut training: bool = false;/../let mut training: bool = false;/
 //@drop /for layer in &mut self\.layers \{/../for layer in &mut self\.layers \{/
 //@drop /if training \{/../if training \{/
 //@subst /self\.predict\(input\)/ -> "oracle_predict(input)"
 //@subst /self\.objective\.loss\(&prediction, target\)/ -> "oracle_loss(&prediction, target)"
+//@subst /_CHUNKS/ -> "chunk"
 //@endslice
 // predict_batch() with predict() as an oracle
-//@slice fn=verif_predict_batch_slice impl=Network src=predict_batch sig="<P: Fn(&tensor::Tensor) -> tensor::Tensor>(&self, inputs: &Vec<&tensor::Tensor>, oracle_predict: P) -> Vec<tensor::Tensor>" protect=none
+//@slice fn=verif_predict_batch_slice impl=Network src=predict_batch sig="<P: Fn(&tensor::Tensor) -> tensor::Tensor>(&self, inputs: &Vec<&tensor::Tensor>, chunk: usize, oracle_predict: P) -> Vec<tensor::Tensor>" protect=none
 //@subst /self\.predict\(input\)/ -> "oracle_predict(input)"
+//@subst /_CHUNKS/ -> "chunk"
 //@endslice
 
 // C09: the flag-handling regions of validate() and learn(), each emitted verbatim as a method of its own.
@@ -108,7 +110,7 @@ mod harnesses {
     fn argmax2(v: &[f32; 2]) -> usize { if v[1] >= v[0] { 1 } else { 0 } }   // `max_by` returns the LAST maximal element
 
     macro_rules! validate_harness {
-        ($name:ident, $act:expr, $softmax:expr, $n:expr) => {
+        ($name:ident, $act:expr, $softmax:expr, $n:expr, $chunk:expr) => {
             #[kani::proof]
             #[kani::unwind(6)]
             #[kani::stub(std::collections::hash_map::RandomState::new, rs_stub)]
@@ -128,7 +130,7 @@ mod harnesses {
                 let ts = [Tensor::single(targs[0].to_vec()), Tensor::single(targs[1].to_vec()), Tensor::single(targs[2].to_vec())];
                 let inputs: Vec<&Tensor> = xs.iter().take($n).collect();
                 let targets: Vec<&Tensor> = ts.iter().take($n).collect();
-                let (loss, acc) = net.verif_validate_slice(&inputs, &targets, tol,
+                let (loss, acc) = net.verif_validate_slice(&inputs, &targets, tol, $chunk,
                     |x| { let tag = x.get_flat()[0] as usize; Tensor::single(preds[tag].to_vec()) },
                     |p, t| {
                         // the loss oracle checks that sample i's prediction is paired with sample i's target
@@ -159,13 +161,13 @@ mod harnesses {
         };
     }
     // @harness c12_validate_linear_n2 props=C12 tier=quick kind=bounded flags="--no-overflow-checks" bound="2 samples, 2 outputs, non-soft-max output layer, tolerance 0.3, values on the .25 grid" what="validate = (mean loss, mean fraction of components within tol), samples paired with their own targets, in order" timeout=900
-    validate_harness!(c12_validate_linear_n2, Activation::Linear, false, 2usize);
+    validate_harness!(c12_validate_linear_n2, Activation::Linear, false, 2usize, 64usize);
     // @harness c12_validate_softmax_n2 props=C12 tier=quick kind=bounded flags="--no-overflow-checks" bound="2 samples, 2 outputs, soft-max output layer" what="validate with a soft-max output layer scores arg-max agreement" timeout=900
-    validate_harness!(c12_validate_softmax_n2, Activation::Softmax, true, 2usize);
-    // @harness c12_validate_linear_n3 props=C12 tier=thorough kind=bounded flags="--no-overflow-checks" bound="3 samples" what="validate aggregation, 3 samples" timeout=1800
-    validate_harness!(c12_validate_linear_n3, Activation::Linear, false, 3usize);
-    // @harness c12_validate_softmax_n3 props=C12 tier=thorough kind=bounded flags="--no-overflow-checks" bound="3 samples, soft-max" what="validate aggregation, 3 samples, arg-max rule" timeout=1800
-    validate_harness!(c12_validate_softmax_n3, Activation::Softmax, true, 3usize);
+    validate_harness!(c12_validate_softmax_n2, Activation::Softmax, true, 2usize, 64usize);
+    // @harness c12_validate_linear_n3 props=C12 tier=quick kind=bounded flags="--no-overflow-checks" bound="3 samples, parallel chunk size 2 (the slice takes the chunk size as a parameter; the code uses 64): one full chunk + a short last chunk" what="validate aggregation across a chunk boundary" timeout=1800
+    validate_harness!(c12_validate_linear_n3, Activation::Linear, false, 3usize, 2usize);
+    // @harness c12_validate_softmax_n3 props=C12 tier=thorough kind=bounded flags="--no-overflow-checks" bound="3 samples, chunk size 2, soft-max" what="validate aggregation across a chunk boundary, arg-max rule" timeout=1800
+    validate_harness!(c12_validate_softmax_n3, Activation::Softmax, true, 3usize, 2usize);
 
     macro_rules! predict_batch_harness {
         ($name:ident, $n:expr) => {
@@ -177,7 +179,7 @@ mod harnesses {
                 let net = one_dense(Activation::Linear);
                 let xs = [Tensor::single(vec![small()]), Tensor::single(vec![small()]), Tensor::single(vec![small()])];
                 let inputs: Vec<&Tensor> = xs.iter().take($n).collect();
-                let out = net.verif_predict_batch_slice(&inputs, |x| Tensor::single(vec![x.get_flat()[0] * 2.0 + 1.0]));
+                let out = net.verif_predict_batch_slice(&inputs, 1, |x| Tensor::single(vec![x.get_flat()[0] * 2.0 + 1.0]));
                 // exactly predict of each input, in input order
                 assert!(out.len() == $n);
                 let mut i = 0;
@@ -187,7 +189,7 @@ mod harnesses {
             }
         };
     }
-    // @harness c12_predict_batch_n2 props=C12 tier=thorough kind=bounded flags="--no-overflow-checks" bound="2 inputs" what="predict_batch = predict of each input, in input order" timeout=3000 mem=20
+    // @harness c12_predict_batch_n2 props=C12 tier=thorough kind=bounded flags="--no-overflow-checks" bound="2 inputs, chunk size 1 (two chunks)" what="predict_batch = predict of each input, in input order, across a chunk boundary" timeout=3000 mem=20
     predict_batch_harness!(c12_predict_batch_n2, 2usize);
     // @harness c12_predict_batch_n1 props=C12 tier=thorough kind=bounded flags="--no-overflow-checks" bound="1 input" what="predict_batch, one input" timeout=900
     predict_batch_harness!(c12_predict_batch_n1, 1usize);
